@@ -268,6 +268,10 @@ Section Phases.
     pose proof (j_tx _ HJ _ _ HT) as Hwf.
     destruct (t_apply T) as [a|] eqn:Ea.
     { destruct a; try exact I.
+      destruct (scan_props w i _ (fun p => is_none (p_apply p))) as [[u|[t0 p0]]|] eqn:Hscan0.
+      { exact I. }
+      { apply scan_props_inr in Hscan0. destruct Hscan0 as [Hp0 Hf0]. apply chain1. apply J_put_prop; [exact HJ|].
+        eapply backed_start; eauto using (j_back _ HJ); cbn; intros Hs; auto; try (right; eexists; eassumption). }
       apply phase_scan_J; auto.
       - intros t p Hp Hg. eapply backed_start; eauto using (j_back _ HJ); cbn; intros Hs; auto; try (right; eexists; eassumption).
       - intros p. split; solve_wf_on T.
